@@ -1166,6 +1166,11 @@ handle_null_request(int tun_fd, int dns_fd, struct dnsfd *dns_fds, struct query 
 		} else {
 			users[userid].fragsize = max_frag_size;
 			users[userid].options_locked = 1;
+#ifdef DNSCACHE_LEN
+			/* Cached answers were cut for the previous fragsize */
+			memset(users[userid].dnscache_answerlen, 0,
+			       sizeof(users[userid].dnscache_answerlen));
+#endif
 			write_dns(dns_fd, q, &unpacked[1], 2, users[userid].downenc);
 		}
 		return;
